@@ -21,7 +21,8 @@ CONSTANTS Kinds,      \* which writers run in this configuration
           LebA1, LebA2, LebA3,   \* byte alphabets for LEB positions 1, 2, >= 3
           MaxLeb,     \* longest LEB input
           FixA,       \* byte alphabet for fixed-width integers
-          MaxCStr     \* number of letters of a string input
+          MaxCStr,    \* number of letters of a string input
+          LebStop     \* TRUE: a complete LEB128 encoding is not extended further (long-encoding configurations)
 
 VARIABLES kind, inp
 vars == <<kind, inp>>
@@ -31,6 +32,7 @@ AllBytes == 0..255
 Classes6 == {0, 63, 64, 127, 128, 255}
 Classes16 == {0, 1, 2, 62, 63, 64, 65, 126, 127, 128, 129, 191, 192, 193, 254, 255}
 Classes64 == {b \in 0..255 : b % 4 = 3 \/ b \in Classes16}
+LongLeb == {0, 63, 64, 127, 128, 255}          \* two continuation bytes, four terminators (sign bit set / clear)
 FixClasses == {0, 1, 127, 128, 255}
 FixClasses4 == {0, 127, 128, 255}
 AllKinds == {"leb", "fix", "int24", "cstr", "initlen", "arr"}
@@ -52,6 +54,7 @@ Init == kind \in Kinds /\ inp = <<>>
 Next ==
   /\ UNCHANGED kind
   /\ \/ /\ kind = "leb" /\ Len(inp) < MaxLeb
+        /\ (LebStop => LebTerm(inp) = {})
         /\ \E b \in LebAlpha(Len(inp) + 1) : inp' = Append(inp, b)
      \/ /\ kind = "fix" /\ Len(inp) < 8
         \* bytes 5..7 repeat byte 4 (filler); bytes 1..4 and 8 are free
@@ -84,6 +87,11 @@ PrefArr(cnt, hdr) == IF Len(inp) < hdr + cnt THEN [ok |-> FALSE, used |-> 0, ite
 ArrU8 == IF Len(inp) < 1 THEN [ok |-> FALSE, used |-> 0, items |-> <<>>] ELSE PrefArr(inp[1], 1)
 ArrU16(le) == IF Len(inp) < 2 THEN [ok |-> FALSE, used |-> 0, items |-> <<>>]
               ELSE PrefArr(SmallDec(Slice(inp, 1, 2), le, FALSE), 2)
+ArrU32(le) == IF Len(inp) < 4 THEN [ok |-> FALSE, used |-> 0, items |-> <<>>]
+              \* inputs are at most 5 bytes long: a count with a non-zero high half exceeds any input
+              ELSE LET d == IF le THEN Slice(inp, 1, 4) ELSE Rev(Slice(inp, 1, 4)) IN
+                   IF d[3] # 0 \/ d[4] # 0 THEN [ok |-> FALSE, used |-> 0, items |-> <<>>]
+                   ELSE PrefArr(d[1] + 256 * d[2], 4)
 ArrUleb == LET d == LebDec(inp, FALSE) IN
            IF ~d.ok THEN [ok |-> FALSE, used |-> 0, items |-> <<>>]
            ELSE PrefArr(GroupsNat(d.val.g), d.used)      \* inputs are <= 5 bytes: the count is a Small
@@ -105,7 +113,7 @@ Expect ==
                                be |-> SmallDec(Slice(inp, 1, 3), FALSE, FALSE)]
     [] kind = "cstr" -> [p \in StrPos |-> CStrAt(inp, p)]
     [] kind = "initlen" -> [le |-> InitialLength(inp, TRUE), be |-> InitialLength(inp, FALSE)]
-    [] kind = "arr" -> [u8 |-> ArrU8, u16le |-> ArrU16(TRUE), u16be |-> ArrU16(FALSE),
+    [] kind = "arr" -> [u8 |-> ArrU8, u16le |-> ArrU16(TRUE), u16be |-> ArrU16(FALSE), u32le |-> ArrU32(TRUE), u32be |-> ArrU32(FALSE),
                         uleb |-> ArrUleb, until0 |-> ArrUntil0]
 
 \* functions with non-string domains do not serialise as JSON objects: make pairs
